@@ -112,11 +112,59 @@ def _modname(mv):
     return mv.mod.name if isinstance(mv.mod, Module) else mv.mod
 
 
+class ReVal(object):
+    """a compiled regular expression with constant pattern: its methods fold on constant text (stdlib re is trusted)"""
+    abs_type = "Pattern"
+
+    def __init__(self, pattern, flags=0):
+        import re
+        self.rx = re.compile(pattern, flags)
+
+    def __repr__(self):
+        return "re(%r)" % self.rx.pattern
+
+    def abs_truth(self):
+        return True
+
+    def abs_call(self, it, st, name, args, kwargs, node):
+        if name in ("sub", "split", "findall", "subn") and all(isinstance(a, (str, int)) for a in args) and not kwargs:
+            r = getattr(self.rx, name)(*args)
+            return [(st, "val", tuple(r) if isinstance(r, list) else r)]
+        if name in ("match", "search", "fullmatch") and all(isinstance(a, (str, int)) for a in args) and not kwargs:
+            m = getattr(self.rx, name)(*args)
+            return [(st, "val", None if m is None else Top("re.Match", False, truth=True))]
+        return [(st, "val", Top("re.%s(%s)" % (name, self.rx.pattern), all(not isinstance(a, Top) or a.input for a in args)))]
+
+
+def fold_regex_call(self, name, args, kwargs):
+    """re.<fn>(constant...) folded, when the interpreter is asked to (fold_regex)"""
+    import re
+    if not getattr(self, "fold_regex", False) or kwargs or not all(isinstance(a, (str, int)) for a in args):
+        return KeyError
+    fn = name.split(".")[-1]
+    try:
+        if fn == "compile":
+            return ReVal(*args)
+        if fn in ("sub", "split", "findall", "escape"):
+            r = getattr(re, fn)(*args)
+            return tuple(r) if isinstance(r, list) else r
+        if fn in ("match", "search", "fullmatch"):
+            m = getattr(re, fn)(*args)
+            return None if m is None else Top("re.Match", False, truth=True)
+    except re.error:
+        return KeyError
+    return KeyError
+
+
 def call_external(self, st, name, args, kwargs, node):
     stub = self.stubs.get(name)
     if stub is not None:
         return stub(self, st, args, kwargs, node)
     last = name.split(".")[-1]
+    if name.startswith("re."):
+        r = fold_regex_call(self, name, args, kwargs)
+        if r is not KeyError:
+            return [(st, "val", r)]
     if name in ("time.time",):
         return [(st, "val", Top("time", True))]
     if name in ("itertools.chain",):
